@@ -71,19 +71,20 @@ def scenes3d(
     spacing=None,
     unknown_est=True,
     mixed_frames=False,
+    R=7,
+    gt_label_mix=("t", "t", "t", "t", "nt", "fp", "unk"),
 ):
     """A frame: ground truths on distinct grid cells, estimates relative to them. All in ego coordinates."""
     targets = targets if targets is not None else draw(st.lists(st.sampled_from(TARGETS), min_size=1, max_size=4, unique=True))
     n_gt = draw(counts(min_gt, max_gt))
     S = spacing if spacing is not None else draw(st.sampled_from([5.0, 8.0, 15.0]))
-    R = 7
     cells = draw(
         st.lists(st.tuples(st.integers(-R, R), st.integers(-R, R)), min_size=n_gt, max_size=n_gt, unique=True)
     )
     non_targets = [l for l in TARGETS if l not in targets] or ["animal"]
     gt = []
     for i, (cx, cy) in enumerate(cells):
-        lab_kind = draw(st.sampled_from(["t", "t", "t", "t", "nt", "fp" if allow_fp_gt else "t", "unk"]))
+        lab_kind = draw(st.sampled_from([k if (k != "fp" or allow_fp_gt) else "t" for k in gt_label_mix]))
         if lab_kind == "t":
             lab = draw(st.sampled_from(targets))
         elif lab_kind == "nt":
@@ -93,7 +94,8 @@ def scenes3d(
         else:
             lab = "unknown"
         o = {
-            "p": [cx * S + draw(fl(-S / 5, S / 5)), cy * S + draw(fl(-S / 5, S / 5)), draw(fl(-2.0, 2.0))],
+            # (the constant offsets keep shrunk / 'nasty' zero jitters off the symmetry axes through the ego)
+            "p": [cx * S + 0.37 + draw(fl(-S / 5, S / 5)), cy * S - 0.21 + draw(fl(-S / 5, S / 5)), draw(fl(-2.0, 2.0))],
             "yaw": draw(yaws()),
             "qs": draw(qsigns()),
             "size": draw(sizes()),
